@@ -198,13 +198,20 @@ def parsSet : Pars → Name → Rat → Option Pars
       | none => none
       | some r => some ((k', v') :: r)
 
-/-- `Model.update_parameters`: in order, KeyError at the first unknown name (earlier ones stay applied) -/
-def parsUpdate : Pars → Upd → Out Pars
-  | p, [] => (p, none)
+/-- applying the updates in order; `none` at the first unknown name -/
+def parsUpdateGo : Pars → Upd → Option Pars
+  | p, [] => some p
   | p, (k, v) :: rest =>
     match parsSet p k v with
-    | none => (p, some .keyError)
-    | some p' => parsUpdate p' rest
+    | none => none
+    | some p' => parsUpdateGo p' rest
+
+/-- `Model.update_parameters`: every name is checked before the first value is written (since the repair of
+    F-C03-10): KeyError for an unknown name leaves the parameters as they were -/
+def parsUpdate (p : Pars) (kvs : Upd) : Out Pars :=
+  match parsUpdateGo p kvs with
+  | some p' => (p', none)
+  | none => (p, some .keyError)
 
 def updPars {σ} (s : Sim σ) (kvs : Upd) : Out (Sim σ) :=
   let r := parsUpdate s.pars kvs
